@@ -50,15 +50,25 @@ Theorem C11_refused_state : forall cfg c p f s1 sn,
   exists w', reqs (outs x) = RResume (p_sm_id p) (p_inbound p) :: RBind (c_resource cfg) (p_packet_id p + 1) :: w'.
 Proof. exact refused_state. Qed.
 
-(* another id, an unexpected element, malformed XML or a closed stream: nothing but the
-   <resume/> was written, the connection fails, and the state is discarded (no id, count
-   zero, no queue: [clear_sm]); the old session is never continued *)
+(* another id, an unexpected element, malformed XML or a closed stream - anything the server
+   DOES answer: nothing but the <resume/> was written, the connection fails, and the state is
+   discarded (no id, count zero, no queue: [clear_sm]); the old session is never continued *)
 Theorem C11_other_reply_discards : forall cfg c p f s sn,
-  f_sm f = true -> has_id p = true ->
+  f_sm f = true -> has_id p = true -> conn_lost s = false ->
   (forall rest, s <> SResumed (p_sm_id p) :: rest) -> (forall s1, s <> SFailed :: s1) ->
   step_resume cfg c p f s sn
   = ([o c (RResume (p_sm_id p) (p_inbound p)) sn], Err false false, clear_sm p).
 Proof. exact other_reply_exact. Qed.
+
+(* the connection goes away before any answer arrives (nothing more comes, or the connection
+   is closed: [conn_lost]): the server has neither confirmed nor refused anything; the
+   connection fails and everything held is exactly as before, so the next connection asks
+   for the same session again (as for a <resume/> that could not be written) *)
+Theorem C11_unanswered_keeps_state : forall cfg c p f s sn,
+  f_sm f = true -> has_id p = true -> conn_lost s = true ->
+  step_resume cfg c p f s sn
+  = ([o c (RResume (p_sm_id p) (p_inbound p)) sn], Err false false, p).
+Proof. exact unanswered_keeps. Qed.
 
 (* the WRITE of <resume/> itself fails (the connection went away after the features were
    read: [step_resume_w true], Model/Session.v).  The server has seen nothing, so nothing is
@@ -108,11 +118,15 @@ Qed.
        connection, the count is zero, there is a new queue, a bind was made, <enable/> was
        sent and the negotiation succeeded; or
    (C) the state held before is kept (id, count, queue): then NO bind request was made, and
-       if a <resume/> was sent at all, the negotiation succeeded and the server's reply was
-       <resumed/> with exactly the id held.
-   So the old state survives a connection only when nothing was asked (the negotiation
-   failed before the resume step: dial, TLS, authentication, stream restart) or the server
-   confirmed that very id. *)
+       if a <resume/> was sent at all, either the negotiation succeeded and the server's reply
+       was <resumed/> with exactly the id held, or the negotiation failed because the
+       connection went away before any reply arrived.
+   In case (A), unless nothing was held before, the client had got as far as sending a
+   <resume/> or a bind request on this connection.  So the old state survives a connection
+   when nothing was asked (the negotiation failed before the resume step: refused dial,
+   features that never arrive, TLS, authentication, stream restart - the Session object is
+   kept through all of these), when the question got no answer, or when the server confirmed
+   that very id; and it is lost only to an answer of the server. *)
 Theorem C11_connection_outcome : forall cfg dial tls p script,
   let x := connect cfg dial tls p script in sm_outcome p script (outs x) (res x) (pst x).
 Proof. exact connect_outcome. Qed.
@@ -123,13 +137,15 @@ Proof. exact connect_outcome. Qed.
 Theorem C11_history : forall cfg cs p, hist11 p cs (run_conns cfg p cs).
 Proof. intros cfg cs p. exact (run_conns_hist11 cfg cs p). Qed.
 
-(* "the stale id is never presented again": connection i presented [id] and the session was
-   not continued (the negotiation failed, or a new session was bound).  Then [id] is not
-   presented on any later connection j of the history - however many connections, refusals,
-   failed attempts lie between - unless the SERVER itself issued that very string again in
-   an <enabled/> on some connection k with i <= k < j. *)
-Theorem C11_stale_never_presented_again : forall cfg cs p i j id h h' wi ri pi wj rj pj,
+(* "the stale id is never presented again": connection i presented [id], the server answered
+   (the connection was not cut where its answer was awaited) and the session was not continued
+   (the negotiation failed, or a new session was bound).  Then [id] is not presented on any
+   later connection j of the history - however many connections, refusals, failed attempts lie
+   between - unless the SERVER itself issued that very string again in an <enabled/> on some
+   connection k with i <= k < j. *)
+Theorem C11_stale_never_presented_again : forall cfg cs p i j id h h' wi ri pi wj rj pj ci,
   nth_error (run_conns cfg p cs) i = Some (wi, ri, pi) -> In (RResume id h) (reqs wi) ->
+  nth_error cs i = Some ci -> ~ unanswered (k_script ci) ->
   (ri <> Ok \/ has_bindb wi = true) ->
   (i < j)%nat ->
   nth_error (run_conns cfg p cs) j = Some (wj, rj, pj) -> In (RResume id h') (reqs wj) ->
@@ -176,7 +192,8 @@ Example C11_example :
      ([ROpen; RAuth mech_plain; ROpen; RResume [9] 3], Ok)].
 Proof. reflexivity. Qed.
 
-(* a longer history: enable (id 9), a refused dial, a rejected password, a resumption answered
+(* a longer history: enable (id 9), a refused dial, features that never arrive, a rejected
+   password, a connection cut while the answer to <resume/> is awaited (all keep the state), a resumption answered
    with ANOTHER id (state gone, connection fails), a fresh session (id 5), a refused resumption
    followed by a new session (id 6), a confirmed resumption of that one *)
 Example C11_history_example :
@@ -188,7 +205,9 @@ Example C11_history_example :
   let bind := SIq TResult (PlBind [1]) false in
   let cs := [k true (hello ++ [bind; SEnabled [9] ResTrue]) 3;
              k false [] 0;
+             k true [SHeader []] 0;
              k true [SHeader []; SFeatures f1; SSaslFailure] 0;
+             k true hello 0;
              k true (hello ++ [SResumed [8]]) 0;
              k true (hello ++ [bind; SEnabled [5] ResTrue]) 2;
              k true (hello ++ [SFailed; bind; SEnabled [6] ResTrue]) 1;
@@ -196,8 +215,8 @@ Example C11_history_example :
   map (fun x => (filter (fun r => match r with RResume _ _ | RBind _ _ => true | _ => false end) (reqs (fst (fst x))),
                  snd (fst x), p_sm_id (snd x)))
       (run_conns cfg (fresh true) cs)
-  = [([RBind [] 1], Ok, [9]); ([], Err true false, [9]); ([], Err true true, [9]);
-     ([RResume [9] 3], Err false false, []); ([RBind [] 2], Ok, [5]);
+  = [([RBind [] 1], Ok, [9]); ([], Err true false, [9]); ([], Err true false, [9]); ([], Err true true, [9]);
+     ([RResume [9] 3], Err false false, [9]); ([RResume [9] 3], Err false false, []); ([RBind [] 2], Ok, [5]);
      ([RResume [5] 2; RBind [] 3], Ok, [6]); ([RResume [6] 1], Ok, [6])].
 Proof. reflexivity. Qed.
 
@@ -207,6 +226,7 @@ Print Assumptions C11_refused_binds_fresh.
 Print Assumptions C11_resumed_keeps_state.
 Print Assumptions C11_refused_state.
 Print Assumptions C11_other_reply_discards.
+Print Assumptions C11_unanswered_keeps_state.
 Print Assumptions C11_resume_write_failure.
 Print Assumptions C11_resume_write_ok.
 Print Assumptions C11_not_offered_discards.
